@@ -272,6 +272,20 @@ def in_domain(nodes: dict) -> bool:
     return True
 
 
+def real_ok(nodes: dict) -> bool:
+    """C15's RealOK restated: C13's domain, every integer attribute printable, the three dict levels in key
+    order, no reboot flag."""
+    if not in_domain(nodes) or list(nodes) != sorted(nodes):
+        return False
+    for n in nodes.values():
+        if n.reboot or list(n.children) != sorted(n.children):
+            return False
+        for c in n.children.values():
+            if not (type(c.child_id) is int and digits_ok(c.child_id)) or list(c.values) != sorted(c.values):
+                return False
+    return True
+
+
 ATTRS = ("node_id", "node_type", "protocol_version", "sketch_name", "sketch_version", "battery_level", "heartbeat", "sleeping")
 ATTR_TYPES = {"node_id": int, "node_type": int, "protocol_version": str, "sketch_name": str, "sketch_version": str,
               "battery_level": int, "heartbeat": int, "sleeping": bool}
@@ -670,6 +684,180 @@ class Batch:
         return self.out[i]
 
 
+
+# ---- the JSON text layer: json.dumps / json.loads vs JsonText.render / JsonText.parse ------------
+
+
+def hexb(b: bytes) -> str:
+    return b.hex() if b else "-"
+
+
+def py_loads(text: str):
+    """json.loads as load() sees it: (class, value)."""
+    try:
+        return "ok", json.loads(text)
+    except json.JSONDecodeError:
+        return "invalid", None
+    except RecursionError:
+        return "tooDeep", None
+    except ValueError:
+        return "hugeInt", None
+
+
+def same_parsed(a, b) -> bool:
+    """Parsed values equal: type-exact, dict ORDER included (the parser fixes it); NaN = NaN; the sign of an
+    infinity is not kept by the model."""
+    if type(a) is not type(b):
+        return False
+    if isinstance(a, dict):
+        return list(a) == list(b) and all(same_parsed(a[k], b[k]) for k in a)
+    if isinstance(a, list):
+        return len(a) == len(b) and all(same_parsed(x, y) for x, y in zip(a, b))
+    if isinstance(a, float):
+        return (math.isnan(a) and math.isnan(b)) or (math.isinf(a) and math.isinf(b))
+    return a == b
+
+
+def has_real_literal(v) -> bool:
+    """A float that is not NaN / an infinity, or an infinity (which a huge real literal also gives)."""
+    stack = [v]
+    while stack:
+        x = stack.pop()
+        if isinstance(x, float) and not math.isnan(x):
+            return True
+        if isinstance(x, list):
+            stack.extend(x)
+        elif isinstance(x, dict):
+            stack.extend(x.values())
+    return False
+
+
+def model_parsed(line: str):
+    if line.startswith("ok "):
+        return "ok", parse_model_json(line[3:])
+    return line, None
+
+
+class TextChecks:
+    """Collects `jparse` questions; after the batch ran, compares every answer with the real json.loads."""
+
+    def __init__(self, corr: Corr, batch: "Batch") -> None:
+        self.corr, self.batch, self.asked = corr, batch, []
+
+    def parse_bytes(self, label: str, data: bytes) -> None:
+        self.asked.append((label, data, self.batch.ask("jparse " + hexb(data))))
+
+    def parse_text(self, label: str, text: str) -> None:
+        if lib.has_surrogate(text):
+            self.corr.count("text unmodelled: raw lone surrogate")
+            return
+        self.parse_bytes(label, text.encode("utf-8"))
+
+    def compare(self) -> None:
+        corr = self.corr
+        for label, data, h in self.asked:
+            corr.count("text:" + label)
+            shown = data[:300].decode("utf-8", "replace")
+            try:
+                text = data.decode("utf-8")
+            except UnicodeDecodeError:
+                text = None
+            mcls, mval = model_parsed(self.batch[h])
+            if text is None:
+                if mcls != "undecodable":
+                    corr.disagree("UTF-8 decoding", {"label": label, "bytes": data[:80].hex(), "impl": "UnicodeDecodeError", "model": mcls})
+                continue
+            pcls, pval = py_loads(text)
+            corr.count("text outcome:" + pcls)
+            if mcls == "unsupported":
+                corr.count("text skipped: model says unsupported")
+                if pcls == "ok" and not (has_real_literal(pval) or json_has_surrogate(pval)):
+                    corr.disagree("json.loads: the model calls a text unsupported that holds no real and no lone surrogate",
+                                  {"label": label, "text": shown})
+                continue
+            if pcls == "tooDeep":
+                corr.count("text skipped: recursion limit")
+                continue
+            if mcls != pcls or (pcls == "ok" and not same_parsed(mval, pval)):
+                corr.disagree("json.loads", {"label": label, "text": shown, "impl": pcls + ("" if pval is None else " " + json.dumps(pval)[:300]),
+                                             "model": self.batch[h][:300]})
+
+
+EDGE_TEXTS = [
+    # whitespace
+    "{}", " {} ", "\t\n\r {\n}\r\n", "[]", "[ ]", "{ }", " [ 1 , 2 ] ", '{ "a" : 1 , "b" : [ ] }', "\f{}", "\v{}", " {}", "{} ",
+    "{}\x00", "﻿{}", "", " ", "\n",
+    # literals
+    "null", "true", "false", "nul", "nulll", "True", "NULL", "tru", "truefalse", "[null,true,false]", "[nul]", "[truee]",
+    "NaN", "Infinity", "-Infinity", "-Inf", "Infinit", "[NaN, Infinity, -Infinity]", "nan", "infinity", "+Infinity", "-NaN", "Infinityy",
+    # numbers
+    "0", "-0", "1", "-1", "10", "01", "-01", "00", "1 2", "+1", "-", "--1", "- 1", "1-", "0x10", "1_0", "١٢", "[0]", "[-0]", "[01]", "[1 ]",
+    "[ -7,0,10 ]", "1.5", "1.", ".5", "-.5", "1e5", "1E5", "1e+5", "1e-5", "1e", "1e+", "1.e5", "1.5e", "0.0", "-0.0", "0e0", "[1.0]", "[1.]", "[1e]",
+    "[1.5x]", "1.5.5", "9" * 100, "-" + "9" * 100, "9" * MAXD, "9" * (MAXD + 1), "-" + "9" * (MAXD + 1), "[" + "9" * (MAXD + 1) + "]",
+    "[" + "9" * (MAXD + 1), "[" + "9" * (MAXD + 1) + ",", "9" * (MAXD + 1) + ".5", "9" * (MAXD + 1) + "e1", "9" * (MAXD + 1) + "x", "1" + "0" * MAXD,
+    "[1,2", "12", "123 ", " 123", "1\n", "0 0",
+    # strings
+    '""', '"a"', '"é"', '"\U0001f600"', '"\\""', '"\\\\"', '"\\/"', '"/"', '"\\b\\f\\n\\r\\t"', '"\\u00e9"', '"\\u00E9"', '"\\u00Ab"', '"\\ud83d\\ude00"',
+    '"\\uD83D\\uDE00"', '"\\ud83d"', '"\\ude00"', '"\\ud83d\\u0041"', '"\\ud83dx"', '"\\ud83d\\n"', '"\\ud83d\\ud83d\\ude00"', '"\\ude00\\ud83d"',
+    '"\\ud83d\\uzzzz"', '"\\ud83d\\u12"', '"\\ud83d\\', '"\\ud83d\\u', '"\\ud83d', '"\\u12"', '"\\u123"', '"\\u12345"', '"\\uzzzz"', '"\\u+123"', '"\\u 123"',
+    '"\\x41"', '"\\a"', '"\\\'"', '"\\', '"\\"', '"abc', '"', "'a'", '"a"b', '"a" "b"', '"\ttab"', '"line\nbreak"', '"nul\x00"', '"\x1f"', '"\x7f"', '"\x20"',
+    '" "', '"\\u0000"', '"\\u001f"', '"\\ufeff"', '"\\uffff"', '"\\ud7ff"', '"\\ue000"', '"\\udbff\\udfff"', '"\\udbff\\udbff"', '"\\udc00\\udc00"',
+    # arrays
+    "[1,]", "[,1]", "[,]", "[1,,2]", "[1 2]", "[1;2]", "[", "]", "[]]", "[[]", "[[],[]]", "[[[[[[]]]]]]", "[1,[2,[3,[4]]]]", '["a",]', "[1]x", "[1] []",
+    # objects
+    '{"a":1}', '{"a":1,}', '{,"a":1}', '{"a" 1}', '{"a":}', '{"a"}', '{a:1}', "{'a':1}", '{1:1}', '{"a":1 "b":2}', '{"a":1,,"b":2}', '{"a":1;"b":2}',
+    '{"a":1,"b":2,"a":3}', '{"a":1,"a":2}', '{"a":{"b":1,"b":2},"a":3}', '{"":0}', '{"":0,"":1}', '{"a":1,"b":2,"c":3,"b":4,"a":5}', '{"\\u0061":1,"a":2}',
+    '{"a":[{"b":[{"c":null}]}]}', "{", "}", "{}}", "{{}", '{"a":{}', '{"a":{}}', '{"a":1}}', '{"a":1}{', '{"a":1} x', '{null:1}', '{"a":1,"b"}', '{"a":1,"b":}',
+    '{"a" :\n\t1\r}', '{"a": NaN}', '{"a": 1.5}', '{"a": "\\ud800"}', '{"\\ud800": 1}', '{"x": -}',
+    # comments and other extensions
+    "// c\n{}", "{} // c", "/* c */ {}", "{/* c */}", "# c\n{}", "[1, // c\n2]", "{}\n{}", "[undefined]", "[None]", "[0b1]", "[.1]", "[1.e1]", "(1)",
+]
+
+
+def text_checks(corr: Corr, batch: "Batch", cases, rng, tier: str) -> "TextChecks":
+    """(b) of the text layer: the real json.loads vs JsonText.parse on hand-written edge texts, on every proper
+    prefix of a few saved files (both must reject every non-empty one), on single-character edits of saved
+    files, and on byte strings that are / are not UTF-8."""
+    tc = TextChecks(corr, batch)
+    for t in EDGE_TEXTS:
+        tc.parse_text("edge", t)
+    saved = [c for c in cases if c.get("bytes") and c.get("m") is not None]
+    small = sorted((c for c in saved if 200 <= len(c["bytes"]) <= 1600), key=lambda c: (-len({*c["bytes"]}), len(c["bytes"])))
+    picked = [c for c in saved if c["label"] in ("direct:boundary", "direct:awkward-strings", "direct:unsorted")]
+    for c in small:
+        if len(picked) >= (5 if tier == "quick" else 12):
+            break
+        if c not in picked:
+            picked.append(c)
+    for c in picked:
+        data = c["bytes"]
+        step = 1 if (tier == "thorough" or len(data) <= 1200) else 2
+        for i in range(0, len(data), step):
+            tc.parse_bytes("prefix", data[:i])
+        tc.parse_bytes("prefix:whole", data)
+    alphabet = list('{}[],:"\\ \n0159-.eEtfnuNI/x') + ["\\u", "é", "\x00", "\t", "00", '""', "\\ud83d", "\U0001f600"]
+    pool = [c["bytes"].decode("utf-8") for c in picked] + ['{"a": [1, -20, {"b": null, "c": "x\\n\\u00e9"}], "d": true, "e": {}}']
+    for _ in range(400 if tier == "quick" else 4000):
+        t = rng.choice(pool)
+        i = rng.randrange(len(t) + 1)
+        r = rng.random()
+        if r < 0.4:
+            t = t[:i] + t[i + 1:]
+        elif r < 0.8:
+            t = t[:i] + rng.choice(alphabet) + t[i:]
+        else:
+            t = t[:i] + rng.choice(alphabet) + t[i + 1:]
+        tc.parse_text("edit", t)
+    for raw in (b"\xc3\xa9", b"\xe2\x82\xac", b"\xf0\x9f\x98\x80", b"\xf4\x8f\xbf\xbf", b"\xef\xbf\xbf", b"\xed\x9f\xbf", b"\xee\x80\x80", b"\x7f",
+                b"\xc2\x80", b"\xdf\xbf", b"\xe0\xa0\x80", b"\xf0\x90\x80\x80",
+                b"\xc0\x80", b"\xc1\xbf", b"\xe0\x80\x80", b"\xe0\x9f\xbf", b"\xed\xa0\x80", b"\xed\xbf\xbf", b"\xf0\x80\x80\x80", b"\xf0\x8f\xbf\xbf",
+                b"\xf4\x90\x80\x80", b"\xf5\x80\x80\x80", b"\xff", b"\xfe", b"\x80", b"\xbf", b"\xc3", b"\xe2\x82", b"\xf0\x9f\x98", b"\xc3\x28", b"\xe2\x28\xa1",
+                b"\xe2\x82\x28", b"\xf0\x28\x8c\xbc", b"\xf0\x9f\x28\x80", b"\xf8\x88\x80\x80\x80"):
+        tc.parse_bytes("utf8", b'"' + raw + b'"')
+        tc.parse_bytes("utf8", b'["a' + raw + b'", 1]')
+    return tc
+
+
 # ---- C13 -----------------------------------------------------------------------------------------
 
 
@@ -683,6 +871,8 @@ async def c13_impl(cases):
         if c["save"] == "ok":
             with open(path, encoding="utf-8") as f:
                 c["text"] = f.read()
+            with open(path, "rb") as f:
+                c["bytes"] = f.read()
             c["saved"] = json.loads(c["text"])
             c["load"], c["loaded"] = await impl_load(path)
             lp = fresh_path()
@@ -702,7 +892,14 @@ def run_c13(ctx) -> Corr:
                 "empty dict; oracle = every attribute the property lists is reproduced with the same type, and the "
                 "pymysensors spelling of the saved file loads to the same registry; model compared on: the saved JSON "
                 "value, RegOK, load(file value), load(save r), legacyOf, load(legacy); plus out-of-domain registries "
-                "(model vs implementation only) and the two repository fixtures. non-trivial = registry has a child, a "
+                "(model vs implementation only) and the two repository fixtures; the JSON text layer: the bytes of every "
+                "saved file vs JsonText.render of the sorted dump (saveText) byte for byte, json.loads of the file vs "
+                "JsonText.parse (member order included), json.dumps(sort_keys / insertion order, indent=2) of str-keyed "
+                "values vs dumpsSorted / render, RealOK vs its restatement, and json.loads vs JsonText.parse on "
+                "hand-written edge texts (whitespace, escapes, surrogates, duplicate keys, leading zeros, digit limit, "
+                "trailing commas, comments, NaN), on every proper prefix of several saved files, on single-character "
+                "edits of saved files and on valid / invalid UTF-8 (texts the model calls unsupported - real literals, "
+                "lone surrogates - are skipped). non-trivial = registry has a child, a "
                 "value, a non-default attribute, or lies outside the domain")
     corr._model_ok = ctx.model_ok
     rng = lib.rng_for(ctx.seed, "c13")
@@ -768,7 +965,14 @@ def run_c13(ctx) -> Corr:
                 batch.ask(op)
             c["m"] = {"save": batch.ask("save"), "regok": batch.ask("regok"), "loadsave": batch.ask("loadsave"),
                       "load": batch.ask("load " + json_tokens(c["saved"])), "legacy": batch.ask("legacy " + json_tokens(c["saved"])),
-                      "legacy_load": batch.ask("load " + json_tokens(c["legacy_value"]))}
+                      "legacy_load": batch.ask("load " + json_tokens(c["legacy_value"])),
+                      "savetext": batch.ask("savetext"), "realok": batch.ask("realok"),
+                      "jparse": batch.ask("jparse " + hexb(c["bytes"]))}
+            text_i = corr.dist.get("text layer: files", 0)
+            corr.count("text layer: files")
+            if text_i % 3 == 0 and len(c["bytes"]) < 20000:     # generic values: str keys sort as strings, insertion order kept
+                c["m"]["jdumps"] = batch.ask("jdumps " + json_tokens(c["saved"]))
+                c["m"]["jrender"] = batch.ask("jrender " + json_tokens(c["legacy_value"]))
     # fixtures
     fx = {}
     for name in ("test_aiomysensors_persistence.json", "test_pymysensors_persistence.json"):
@@ -791,7 +995,9 @@ def run_c13(ctx) -> Corr:
     if not ctx.model_ok:
         return corr
     check_boolean_tables(corr)
+    tc = text_checks(corr, batch, cases, lib.rng_for(ctx.seed, "c13-text"), ctx.tier)
     batch.run()
+    tc.compare()
     for name, (out, _, h) in fx.items():
         if batch[h] != out:
             corr.disagree("fixture load", {"fixture": name, "impl": out, "model": batch[h]})
@@ -800,6 +1006,27 @@ def run_c13(ctx) -> Corr:
         if m is None:
             continue
         rp = c["replay"]
+        # the text layer: the file's bytes are JsonText.render of the sorted dump, and JsonText.parse reads them as json.loads does
+        if batch[m["savetext"]] != hexb(c["bytes"]):
+            mt = bytes.fromhex(batch[m["savetext"]].replace("-", "")).decode("utf-8", "replace")
+            k = next((i for i, (x, y) in enumerate(zip(mt, c["text"])) if x != y), min(len(mt), len(c["text"])))
+            corr.disagree("text written by save (json.dumps sort_keys indent=2) vs saveText", {**rp, "first_difference_at": k,
+                          "impl": c["text"][max(0, k - 60):k + 60], "model": mt[max(0, k - 60):k + 60]})
+        pcls, pval = py_loads(c["text"])
+        mcls, mval = model_parsed(batch[m["jparse"]])
+        if mcls != pcls or (pcls == "ok" and not same_parsed(mval, pval)):
+            corr.disagree("json.loads of the saved file vs JsonText.parse", {**rp, "impl": pcls, "model": batch[m["jparse"]][:600]})
+        want = "1" if real_ok(c["nodes"]) else "0"
+        if batch[m["realok"]] != want:
+            corr.disagree("RealOK (model) vs its restatement in Python", {**rp, "model": batch[m["realok"]], "python": want})
+        if "jdumps" in m:
+            corr.count("text layer: generic dumps")
+            want_t = json.dumps(c["saved"], sort_keys=True, indent=2)
+            if batch[m["jdumps"]] != hexb(want_t.encode("utf-8")):
+                corr.disagree("json.dumps(v, sort_keys=True, indent=2) of a str-keyed value vs dumpsSorted", {**rp, "impl": want_t[:800]})
+            want_t = json.dumps(c["legacy_value"], indent=2)
+            if batch[m["jrender"]] != hexb(want_t.encode("utf-8")):
+                corr.disagree("json.dumps(v, indent=2) vs render", {**rp, "impl": want_t[:800]})
         if not jeq(parse_model_json(batch[m["save"]]), c["saved"]):
             corr.disagree("saved JSON value", {**rp, "impl": c["text"][:1500], "model": batch[m["save"]][:1500]})
         want = "1" if in_domain(c["nodes"]) else "0"
@@ -856,8 +1083,11 @@ def run_c14(ctx) -> Corr:
                 "file, missing parent directory, empty file, a directory as path, loads into a non-empty registry; "
                 "oracle = the outcome is success or PersistenceReadError, a missing file is created holding the current "
                 "registry, an empty file gives an empty registry; model compared on outcome, the class raised inside, and "
-                "the registry of successful loads. non-trivial = the file is valid JSON (the schema interpreter ran) or "
-                "a distinct file state")
+                "the registry of successful loads, both with the file state classified by the harness (real json.loads) "
+                "and from the file's BYTES through the modelled UTF-8 decoder and JSON parser (JsonText.classify; quick "
+                "tier: every prefix / special file, every fourth mutation / random value; real literals and lone "
+                "surrogates are outside the modelled fragment and skipped). non-trivial = the file is valid JSON (the "
+                "schema interpreter ran) or a distinct file state")
     rng = lib.rng_for(ctx.seed, "c14")
     files: list[tuple[str, bytes, dict | None]] = []     # (label, bytes, registry to load into or None)
 
@@ -970,7 +1200,9 @@ def run_c14(ctx) -> Corr:
 
     batch = Batch()
     handles = []
+    byte_handles = []
     for (label, data, cur), (out, before) in zip(files, results):
+        bh = None
         corr.count(label)
         state, val = classify(data)
         corr.count("state:" + state)
@@ -1002,7 +1234,11 @@ def run_c14(ctx) -> Corr:
                 for op in pre:
                     batch.ask(op)
                 h = batch.ask("file " + state)
+            # the same file from its BYTES: the modelled UTF-8 decoder and JSON parser in place of the harness's classification
+            if h is not None and state != "tooDeep" and len(data) <= 20000 and (ctx.tier == "thorough" or not (label.startswith("mutation") or label == "random") or len(handles) % 4 == 0):
+                bh = batch.ask("bload " + hexb(data))
         handles.append((h, state))
+        byte_handles.append(bh if ctx.model_ok else None)
 
     sp_handles = []
     for kind, cur, before, out, created, back, loaded in special:
@@ -1042,6 +1278,17 @@ def run_c14(ctx) -> Corr:
         if mo != out:
             corr.disagree("load outcome", {"label": label, "state": state, "bytes": data[:600].decode("utf-8", "replace"), "into": before,
                                            "impl": out[:800], "model": mo[:800]})
+    for (label, data, cur), (out, before), bh in zip(files, results, byte_handles):
+        if bh is None:
+            continue
+        mo = batch[bh].split(" created=")[0]
+        if mo == "unsupported":
+            corr.count("bytes: outside the modelled text fragment")
+            continue
+        corr.count("bytes: load outcome through the modelled parser")
+        if mo != out:
+            corr.disagree("load outcome from the file's bytes (modelled decoder and parser)",
+                          {"label": label, "bytes": data[:600].decode("utf-8", "replace"), "into": before, "impl": out[:800], "model": mo[:800]})
     for (kind, cur, before, out, created, back, loaded), h in zip(special, sp_handles):
         if h is None:
             continue
